@@ -231,7 +231,10 @@ pub fn interesting_minutes(e: &OpeningHoursExpression) -> Vec<u32> {
 pub fn random_time(r: &mut Rng, minutes: &[u32], sub_minute: bool) -> NaiveTime {
     let m = if r.chance(60) && !minutes.is_empty() { *r.pick(minutes) } else { r.below(1440) as u32 };
     let (s, ns) = if sub_minute && r.chance(35) {
-        (*r.pick(&[0u32, 1, 30, 59]), *r.pick(&[0u32, 1, 500_000_000, 999_999_999]))
+        let s = *r.pick(&[0u32, 1, 30, 59]);
+        // second 59 also in chrono's leap-second form (nanoseconds >= 1e9): still the clock minute hh:mm
+        let ns = if s == 59 && r.chance(30) { *r.pick(&[1_000_000_000u32, 1_500_000_000, 1_999_999_999]) } else { *r.pick(&[0u32, 1, 500_000_000, 999_999_999]) };
+        (s, ns)
     } else {
         (0, 0)
     };
